@@ -132,7 +132,7 @@ impl Prop for C03 {
     type Case = Case;
     const ID: &'static str = "C03";
     const NUM: u64 = 3;
-    const RULE: &'static str = "random leg: AdjacencyListWeighted<usize> digraphs (order 1..12 quick / 1..40 thorough; uniform densities and 15 structured families; weight classes all-zero, 0/1, 0..10, 0..999, up to 2^40) with empty/single/multiple distinct sources; enum leg: every digraph of order <=3 (quick) / <=4 (thorough) with each ordered pair absent or weighted 0,1,2, times a fixed list of source sets. About one random case in 60..150 has a large order (17..140, incl. 63..66 and 127..130). The Dijkstra / DijkstraDist iterators are also driven through next()-then-count/last/fold/nth/collect at several split points, and clones taken mid-iteration must continue identically (order <= 40). Non-trivial = a textbook lazy-deletion Dijkstra pops at least one superseded heap entry before the last reachable vertex is settled, or a zero-weight arc lies on a shortest path; distinct = distinct serialised case.";
+    const RULE: &'static str = "random leg: AdjacencyListWeighted<usize> digraphs (order 1..12 quick / 1..40 thorough; uniform densities and 15 structured families; weight classes all-zero, 0/1, 0..10, 0..999, up to 2^40) with empty/single/multiple distinct sources; enum leg: every digraph of order <=3 (quick) / <=4 (thorough) with each ordered pair absent or weighted 0,1,2, times a fixed list of source sets. About one random case in 60..150 has a large order (17..140, incl. 63..66 and 127..130). The Dijkstra / DijkstraDist iterators are also driven through next()-then-count/last/fold/nth/collect at several split points, and clones taken mid-iteration must continue identically (order <= 40). Sources are also passed through `filter` and through an iterator reporting another honest size_hint shape; distances() is also called after 1, 2, len/2, len-1, len next() calls (a vertex may then be reported unreached only if unreachable or already yielded). Non-trivial = a textbook lazy-deletion Dijkstra pops at least one superseded heap entry before the last reachable vertex is settled, or a zero-weight arc lies on a shortest path; distinct = distinct serialised case.";
     const ASSUMPTIONS: &'static [&'static str] = &[
         "walk sums stay far below usize::MAX (weights <= 2^40, order <= 40)",
         "sources are distinct and in range, as the property requires",
@@ -266,6 +266,34 @@ impl Prop for C03 {
             }
         }
 
+        // distances() on an instance that was already stepped: a vertex may only
+        // be reported unreached if it is unreachable or was yielded before the call
+        if n <= 40 {
+            let len = reachable.len();
+            let mut ks = vec![1, 2, len / 2, len.saturating_sub(1), len];
+            ks.retain(|&k| k >= 1 && k <= len);
+            ks.sort_unstable();
+            ks.dedup();
+            for k in ks {
+                let mut it = DijkstraDist::new(&g, c.sources.iter().copied());
+                let yielded: BTreeSet<usize> = it.by_ref().take(k).map(|(v, _)| v).collect();
+                let d = it.distances();
+                ensure!(d.len() == n, "distances() after {k} next() calls has length {}", d.len());
+                for v in 0..n {
+                    let ok = match reference.dist[&v] {
+                        None => d[v] == usize::MAX,
+                        Some(x) => (d[v] != usize::MAX && d[v] as i128 == x) || (d[v] == usize::MAX && yielded.contains(&v)),
+                    };
+                    ensure!(
+                        ok,
+                        "DijkstraDist: distances() after {k} next() calls reports {} for vertex {v} (distance {:?}, yielded before the call: {yielded:?})",
+                        if d[v] == usize::MAX { "usize::MAX".to_string() } else { d[v].to_string() },
+                        reference.dist[&v]
+                    );
+                }
+            }
+        }
+
         // Dijkstra item sequence
         let seq: Vec<usize> = Dijkstra::new(&g, c.sources.iter().copied()).collect();
         check_sequence("Dijkstra", &seq, &reachable, &rd)?;
@@ -290,6 +318,12 @@ impl Prop for C03 {
             ensure!(s2 == seq, "Dijkstra: sources passed through `filter` give {s2:?}, passed directly {seq:?}");
             let i2: Vec<(usize, usize)> = DijkstraDist::new(&g, lazy()).collect();
             ensure!(i2 == items, "DijkstraDist: sources passed through `filter` give {i2:?}, passed directly {items:?}");
+            // and through an iterator reporting another honest hint shape
+            let h = gen::hint_pick(c.sources.len(), n + c.g.arcs.len());
+            let s3: Vec<usize> = Dijkstra::new(&g, gen::hinted(c.sources.clone(), h)).collect();
+            ensure!(s3 == seq, "Dijkstra: sources from an iterator with size_hint {h:?} give {s3:?}, passed directly {seq:?}");
+            let i3: Vec<(usize, usize)> = DijkstraDist::new(&g, gen::hinted(c.sources.clone(), h)).collect();
+            ensure!(i3 == items, "DijkstraDist: sources from an iterator with size_hint {h:?} give {i3:?}, passed directly {items:?}");
         }
         if n <= 40 {
             crate::props::c02::protocol("Dijkstra", || Dijkstra::new(&g, c.sources.iter().copied()), &seq)?;
